@@ -3,8 +3,8 @@
    (hypotheses of the theorems; sampled against scipy.stats.norm.ppf at run time). *)
 From Coq Require Import Reals QArith List.
 From Zepid Require Import Base.Wald Base.QSum Base.Rows Model.Estimators Model.Variance Proofs.VarianceProofs
-     GenProofs.GenProofs_calc GenProofs.GenProofs_ic GenProofs.GenProofs_pool GenProofs.GenProofs_wprod GenProofs.GenProofs_xfvar.
-From ZepidGen Require Import Gen_calc_R Gen_ic_Q Gen_aipw_Q Gen_pool_Q Gen_wprod_Q Gen_xfvar_Q.
+     GenProofs.GenProofs_calc GenProofs.GenProofs_ic GenProofs.GenProofs_pool GenProofs.GenProofs_wprod GenProofs.GenProofs_xfvar GenProofs.GenProofs_drci.
+From ZepidGen Require Import Gen_calc_R Gen_ic_Q Gen_aipw_Q Gen_pool_Q Gen_wprod_Q Gen_xfvar_Q Gen_drci_R.
 Import ListNotations.
 
 Definition zq_ok (zq : R -> R) : Prop :=
@@ -91,6 +91,26 @@ Proof. exact (points_indep_alpha zq). Qed.
 Theorem C06_variances_nonneg : forall a b c d, pos4 a b c d ->
   0 <= var_lnRR a b c d /\ 0 <= var_RD a b c d /\ 0 < var_lnOR a b c d.
 Proof. exact (fun a b c d H => conj (var_lnRR_nonneg a b c d H) (conj (var_RD_nonneg a b c d H) (var_lnOR_pos a b c d H))). Qed.
+(* --- AIPTW.fit and TMLE.fit: the limit expressions of the CURRENT source (translated on every run) ARE the Wald interval
+   of the reported estimate and standard error, on the additive scale for ATE/RD and on the log scale for RR/OR.
+   TMLE.fit uses the literal 1.96 at alpha == 0.05; that is the Wald interval iff the quantile there equals 1.96. *)
+Theorem C06_src_aiptw_ci_ate : forall al est v, aiptw_ci_ate_R zq al est v = wald_lin zq est (sqrt v) al.
+Proof. exact (gen_aiptw_ate zq). Qed.
+Theorem C06_src_aiptw_ci_rd : forall al est v, aiptw_ci_rd_R zq al est v = wald_lin zq est (sqrt v) al.
+Proof. exact (gen_aiptw_rd zq). Qed.
+Theorem C06_src_aiptw_ci_rr : forall al est se, aiptw_ci_rr_R zq al est se = wald_log zq est se al.
+Proof. exact (gen_aiptw_rr zq). Qed.
+Theorem C06_src_tmle_ci_ate : forall al est se, tmle_ci_ate_R zq al est se = wald_lin zq est se al.
+Proof. exact (gen_tmle_ate zq). Qed.
+Theorem C06_src_tmle_ci_rd : forall al est se, tmle_ci_rd_R zq al est se = wald_lin zq est se al.
+Proof. exact (gen_tmle_rd zq). Qed.
+Theorem C06_src_tmle_ci_rr : forall al est se, tmle_ci_rr_R zq al est se = wald_log zq est se al.
+Proof. exact (gen_tmle_rr zq). Qed.
+Theorem C06_src_tmle_ci_or : forall al est se, tmle_ci_or_R zq al est se = wald_log zq est se al.
+Proof. exact (gen_tmle_or zq). Qed.
+Theorem C06_src_tmle_rd_at005 : forall est se, se <> 0 ->
+  (tmle_ci_rd_at005_R est se = wald_lin zq est se (5 / 100) <-> zcrit zq (5 / 100) = 196 / 100).
+Proof. exact (gen_tmle_rd_at005 zq). Qed.
 End C06R.
 
 (* --- influence-curve variances (AIPTW, TMLE, StochasticTMLE), IPTW sandwich closed form, cross-fit pooling (Q) *)
@@ -204,3 +224,11 @@ Print Assumptions C06_src_pool_mean.
 Print Assumptions C06_src_iptw_fit_weight.
 Print Assumptions C06_src_crossfit_aiptw_variance.
 Print Assumptions C06_crossfit_aiptw_variance_nonneg.
+Print Assumptions C06_src_aiptw_ci_ate.
+Print Assumptions C06_src_aiptw_ci_rd.
+Print Assumptions C06_src_aiptw_ci_rr.
+Print Assumptions C06_src_tmle_ci_ate.
+Print Assumptions C06_src_tmle_ci_rd.
+Print Assumptions C06_src_tmle_ci_rr.
+Print Assumptions C06_src_tmle_ci_or.
+Print Assumptions C06_src_tmle_rd_at005.
